@@ -754,6 +754,13 @@ func (x *concExec) runEnv(env []Op) {
 			// not starved for seconds); rotations *during* the pass remain fully interleaved
 			w.WaitCondSteps("rotated-flush-done", 200000, func() bool { return w.TasksDone("ds.flush", 0) })
 			do := func() {
+				if !w.TasksDone("ds.flush", 0) {
+					// the wait above ran out of steps (statement-level worlds burn them quickly) with a
+					// post-rotation flush still starved: no request is issued rather than one that
+					// violates the assumption
+					x.out.probe("gc-request-skipped:rotated-flush-still-pending")
+					return
+				}
 				n := w.NumTasks()
 				// the pass may run (even finish) before GC() returns to this task: register first
 				x.gcTasks = append(x.gcTasks, n)
